@@ -41,9 +41,13 @@ def expected_array(src, node_ids, seg_ids, times):
     return exp, off
 
 
-def post_relabel(seg_array, node_ids, seg_ids, time_values, result):
+def snap_source(seg_array):
+    return np.array(np.asarray(seg_array), copy=True)
+
+
+def post_relabel(seg_array, node_ids, seg_ids, time_values, result, OLD):
     STATS["post"] += 1
-    exp, _ = expected_array(np.asarray(seg_array), list(np.asarray(node_ids)),
+    exp, _ = expected_array(OLD.src, list(np.asarray(node_ids)),
                             list(np.asarray(seg_ids)), list(np.asarray(time_values)))
     return np.array_equal(np.asarray(result).astype(np.int64), exp)
 
@@ -59,8 +63,9 @@ def contracted():
     import funtracks.import_export._import_segmentation as ims
     import funtracks.import_export._tracks_builder as tb
 
-    f = icontract.ensure(post_relabel, error=lambda seg_array, node_ids, seg_ids, time_values,
-                         result: PostBroken("array"))(ims.relabel_segmentation)
+    f = icontract.snapshot(snap_source, name="src")(
+        icontract.ensure(post_relabel, error=lambda seg_array, node_ids, seg_ids, time_values,
+                         result: PostBroken("array"))(ims.relabel_segmentation))
     tb.relabel_segmentation = f  # the builder path goes through the contract as well
     _w["f"] = f
     return f
@@ -129,15 +134,15 @@ def judge_direct(case):
     seg_ids = [l for _, l in listed]
     times = [t for t, _ in listed]
     exp, off = expected_array(src, ids, seg_ids, times)
-    src_copy = src.copy()
+    work = src.copy()  # the function gets its own copy; `src` stays pristine for the oracle
     try:
-        out = f(src, g, np.array(ids, dtype=np.int64), np.array(seg_ids), np.array(times))
+        out = f(work, g, np.array(ids, dtype=np.int64), np.array(seg_ids), np.array(times))
     except PostBroken:
         return [("relabel-array", f"relabel_segmentation: result differs from expected "
                  f"(scheme {case['scheme']}, ids {ids}, seg ids {seg_ids}, times {times})",
                  f"C13/direct/array/{case['scheme']}")]
     probs = []
-    if not np.array_equal(src, src_copy):
+    if not np.array_equal(work, src):
         probs.append(("source-modified", "relabel_segmentation modified its input array",
                       "C13/direct/source-modified"))
     if set(g.nodes) != {i + off for i in ids} or \
